@@ -1121,6 +1121,266 @@ def check_floquet_br_case(sysd):
     return bad
 
 
+# ---- K3: IntegratorDiag and IntegratorKrylov bookkeeping (scripted kernels) ----
+class _NpExp2:
+    """stands for the module-level `np` of qutip_integrator: exp(x) := 2**x
+    (exact for the integer arguments used), every call is recorded"""
+    def __init__(self):
+        self.calls = []
+
+    def __getattr__(self, name):
+        return getattr(np, name)
+
+    def exp(self, x):
+        x = np.asarray(x)
+        self.calls.append(x.copy())
+        return (2.0 ** x.real).astype(complex)
+
+
+def run_diag_corr(ctx, rng, ncases):
+    """The real IntegratorDiag.set_state / integrate / get_state driven through
+    random histories with a scripted eigen-decomposition (integer U, Uinv,
+    integer exponents) and a scripted exponential; outputs AND the sequence of
+    step lengths for which the exponential was recomputed are compared exactly
+    with Model/C10_diag.v."""
+    import qutip
+    import qutip.solver.integrator.qutip_integrator as qi
+    from qutip.solver.integrator.qutip_integrator import IntegratorDiag
+    unimod = [([[1, 1], [0, 1]], [[1, -1], [0, 1]]),
+              ([[1, 0], [2, 1]], [[1, 0], [-2, 1]]),
+              ([[0, 1], [1, 0]], [[0, 1], [1, 0]]),
+              ([[1, 1, 0], [0, 1, 0], [0, 0, 1]], [[1, -1, 0], [0, 1, 0], [0, 0, 1]]),
+              ([[1, 0, 0], [0, 1, 2], [0, 0, 1]], [[1, 0, 0], [0, 1, -2], [0, 0, 1]])]
+    cases, got = [], []
+    real_np = qi.np
+    try:
+        for _ in range(ncases):
+            U, Ui = rng.choice(unimod)
+            n = len(U)
+            diag = [rng.randint(-2, 2) for _ in range(n)]
+            ops = []
+            t = rng.randint(-3, 3)
+            ops.append(("set", t, [rng.randint(-4, 4) for _ in range(n)]))
+            for _ in range(rng.choice([2, 4, 6, 9])):
+                r = rng.random()
+                if r < 0.12:
+                    t = rng.randint(-3, 6)
+                    ops.append(("set", t, [rng.randint(-4, 4) for _ in range(n)]))
+                elif r < 0.2:
+                    ops.append(("int", t))                       # dt == 0
+                else:
+                    t = t + rng.choice([1, 1, 1, 2, 2, 3, -1, -2, 4])
+                    ops.append(("int", t))
+            if rng.random() < 0.05:
+                ops = [op for op in ops if op[0] != "set"] or [("int", 1)]   # malformed: never set
+            # the time unit: the same history in units of 1, 2^-40 (steps of the
+            # order 1e-12) and 2^20; exponents scaled inversely, all exact
+            tau = rng.choice([1.0, 2.0 ** -40, 2.0 ** 20])
+            proxy = _NpExp2()
+            qi.np = proxy
+            integ = IntegratorDiag(qutip.QobjEvo(qutip.Qobj(np.diag([1.0 * k for k in range(n)]))), {})
+            integ.diag = (np.array(diag, dtype=complex) / tau).reshape(-1, 1)
+            integ.U = qutip.data.Dense(np.array(U, dtype=complex))
+            integ.Uinv = qutip.data.Dense(np.array(Ui, dtype=complex))
+            proxy.calls = []
+            outs = []
+            for op in ops:
+                try:
+                    if op[0] == "set":
+                        integ.set_state(float(op[1]) * tau, qutip.data.Dense(
+                            np.array(op[2], dtype=complex).reshape(-1, 1)))
+                    else:
+                        tt, st = integ.integrate(float(op[1]) * tau)
+                        outs.append((Fr(float(tt)) / Fr(tau),
+                                     [Fr(float(v.real)) for v in st.to_array().reshape(-1)]))
+                except Exception:              # noqa
+                    outs.append(None)
+                    break
+            log = []
+            for c in proxy.calls:       # recover dt from diag*dt where possible
+                nz = [j for j in range(n) if diag[j] != 0]
+                log.append(int(round(float(c.reshape(-1)[nz[0]].real) / diag[nz[0]])) if nz else None)
+            cases.append((diag, U, Ui, ops, tau))
+            got.append((outs, log))
+    finally:
+        qi.np = real_np
+
+    def cop(op):
+        if op[0] == "set":
+            return "DSet Z qv %s %s" % (vlib.cz(op[1]), vlib.clist(op[2], lambda v: "(inject_Z %s)" % vlib.cz(v)))
+        return "DInt Z qv %s" % vlib.cz(op[1])
+    hdr = ("From Coq Require Import List ZArith QArith.\nImport ListNotations.\n"
+           "From QV Require Import Model.C10_diag.\nLocal Open Scope Z_scope.\n")
+    try:
+        vals = vlib.coq_eval_values(
+            "cases_C10d", hdr,
+            ["toy_d_run %s %s %s %s" % (vlib.clist(d, vlib.cz), cmat(U, vlib.cz), cmat(Ui, vlib.cz),
+                                        vlib.clist(ops, cop)) for d, U, Ui, ops, _tau in cases], chunk=100)
+    except RuntimeError as e:
+        ctx.violation("corr:C10:diag-model-eval", "coqc", "diag model evaluation failed",
+                      {"log": str(e)}, found_input=False)
+        return
+    skipped = 0
+    for (d, U, Ui, ops, tau), (outs, log), val in zip(cases, got, vals):
+        mo, mlog = vlib.parse_coq_value(val)
+        model = []
+        for o in mo:
+            if o is None:
+                model.append(None)
+            else:
+                t, vec = o[1]
+                model.append((Fr(t), [Fr(a, b) for a, b in vec]))
+        # exactness budget: every model value must fit a double with room to
+        # spare (the intermediate products of the implementation then do too)
+        if any(o is not None and any(x.numerator.bit_length() > 46 for x in o[1]) for o in model):
+            skipped += 1
+            continue
+        ctx.count_case(("diag", tuple(d), str(U), str(ops)), nontrivial=len(ops) > 2)
+        ctx.cov["traces_validated_against_impl"] += 1
+        zero_diag = all(k == 0 for k in d)
+        if model != outs or (not zero_diag and list(mlog) != log):
+            sig = "outputs-differ" if model != outs else "exp-cache-refresh-differs"
+            ctx.violation("corr:qutip_integrator.IntegratorDiag", sig,
+                          "IntegratorDiag history: %s from the model of set_state/integrate "
+                          "(cached exp(diag*dt) keyed by dt)" % sig,
+                          {"kind": "diag_corr", "diag": d, "U": U, "Uinv": Ui, "ops": ops,
+                           "time_unit": tau,
+                           "impl": [None if o is None else [str(o[0]), [str(x) for x in o[1]]] for o in outs],
+                           "impl_exp_steps": log,
+                           "model": [None if o is None else [str(o[0]), [str(x) for x in o[1]]] for o in model],
+                           "model_exp_steps": list(mlog)}, found_input=True)
+    ctx.cov["input_distribution"]["diag_trace"] = {"cases": len(cases) - skipped,
+                                                   "skipped_for_exactness": skipped}
+
+
+def run_krylov_corr(ctx, rng, ncases):
+    """The real IntegratorKrylov.set_state / integrate (the re-basing loop, _t_0,
+    _max_step) with scripted Lanczos / eigen-set / psi / step-length kernels on
+    states m*i^k; outputs, the times at which the basis was rebuilt and the
+    final _max_step are compared exactly with Model/C10_krylov.v."""
+    import qutip
+    from qutip.solver.integrator.krylov import IntegratorKrylov
+    from qutip.solver.integrator import IntegratorException
+
+    class Tri:
+        def __init__(self, n):
+            self.shape = (n, n)
+
+    def phase_k(z):
+        for k, u in enumerate((1, 1j, -1, -1j)):
+            if abs(z - u) < 1e-12:
+                return k
+        return 1        # the random trial vector of _prepare
+
+    class Scripted(IntegratorKrylov):
+        tbl = [1, 1, 1, 1]
+
+        def _lanczos_algorithm(self, psi):
+            k = phase_k(complex(psi.to_array()[0, 0]))
+            self.rebuilt.append(getattr(self, "_t_0", None))
+            return Tri(1 if k % 2 == 0 else 2), psi
+
+        def _compute_krylov_set(self, tri, basis):
+            return "eigs", basis, qutip.data.Dense(np.array([[1.0 + 0j]]))
+
+        def _compute_psi(self, dt, eigenvalues, U, e0):
+            z = complex(U.to_array()[0, 0]) * complex(e0.to_array()[0, 0]) * (1j ** int(round(dt)))
+            return qutip.data.Dense(np.array([[z]]))
+
+        def _compute_max_step(self, tri, basis, krylov_state=None):
+            k = phase_k(complex(basis.to_array()[0, 0]))
+            return float(self.tbl[k])
+    Scripted.rebuilt = []
+    cases, got = [], []
+    for _ in range(ncases):
+        tbl = [rng.randint(1, 4) for _ in range(4)]
+        always = rng.random() < 0.4
+        nsteps = rng.choice([2, 3, 5, 50])
+        ms0 = rng.choice(["neg", "pos", 1, 2, 3]) if not always else rng.choice(["neg", "neg", "pos", 2])
+        ops = []
+        t = rng.randint(-2, 2)
+        ops.append(("set", t, (rng.randint(1, 5), rng.randint(0, 3))))
+        for _ in range(rng.choice([2, 3, 5, 7])):
+            r = rng.random()
+            if r < 0.15:
+                t = rng.randint(-2, 6)
+                ops.append(("set", t, (rng.randint(1, 5), rng.randint(0, 3))))
+            elif r < 0.22:
+                ops.append(("int", t - rng.randint(1, 3)))      # a query behind the last one
+            else:
+                t = t + rng.choice([0, 1, 1, 2, 3, 5, 9])
+                ops.append(("int", t))
+        Scripted.tbl = tbl
+        Scripted.rebuilt = []
+        integ = Scripted(qutip.QobjEvo(qutip.Qobj(np.array([[1.0]]))),
+                         {"krylov_dim": 1, "always_compute_step": always, "nsteps": nsteps})
+        integ._max_step = {"neg": -np.inf, "pos": np.inf}.get(ms0, float(ms0) if not isinstance(ms0, str) else 0)
+        Scripted.rebuilt = []
+        outs = []
+        for op in ops:
+            try:
+                if op[0] == "set":
+                    m, k = op[2]
+                    integ.set_state(float(op[1]), qutip.data.Dense(np.array([[m * (1j ** k)]])))
+                else:
+                    tt, st = integ.integrate(float(op[1]))
+                    z = complex(st.to_array()[0, 0])
+                    m = int(round(abs(z)))
+                    outs.append((int(round(tt)), m, phase_k(z / m) if m else 0))
+            except IntegratorException:
+                outs.append(None)
+                break
+        ms = integ._max_step
+        cases.append((tbl, always, nsteps, ms0, ops))
+        got.append((outs, [int(round(x)) for x in Scripted.rebuilt],
+                    "PosInf" if ms == np.inf else ("NegInf" if ms == -np.inf else int(round(ms)))))
+    hdr = ("From Coq Require Import List ZArith Bool.\nImport ListNotations.\n"
+           "From QV Require Import Model.C10_krylov.\nLocal Open Scope Z_scope.\n")
+
+    def cop(op):
+        if op[0] == "set":
+            return "KSet tstate %s (%s, %s)" % (vlib.cz(op[1]), vlib.cz(op[2][0]), vlib.cz(op[2][1]))
+        return "KInt tstate %s" % vlib.cz(op[1])
+
+    def cms0(x):
+        return {"neg": "NegInf", "pos": "PosInf"}.get(x, "(Fin %s)" % x)
+    try:
+        vals = vlib.coq_eval_values(
+            "cases_C10y", hdr,
+            ["toy_k_run %s %s %d%%nat %s %s" % (vlib.clist(tbl, vlib.cz), vlib.cbool(al), ns, cms0(m0),
+                                              vlib.clist(ops, cop)) for tbl, al, ns, m0, ops in cases],
+            chunk=100)
+    except RuntimeError as e:
+        ctx.violation("corr:C10:krylov-model-eval", "coqc", "krylov model evaluation failed",
+                      {"log": str(e)}, found_input=False)
+        return
+    nraise = 0
+    for case, (outs, rebuilt, ms), val in zip(cases, got, vals):
+        mo, mlog, mms = vlib.parse_coq_value(val)
+        model = [None if o is None else (o[1][0], o[1][1][0], o[1][1][1] % 4) for o in mo]
+        mms = mms if isinstance(mms, str) else mms[1]
+        nraise += 1 if None in outs else 0
+        ctx.count_case(("krylov", str(case)), nontrivial=len(case[4]) > 2)
+        ctx.cov["traces_validated_against_impl"] += 1
+        raised = None in outs
+        # after an exception the model keeps the object as it was before the
+        # failing call (the history ends there): the real object has done some
+        # of the re-bases, so only a prefix of its rebuild times is comparable
+        log_ok = (rebuilt[:len(mlog)] == list(mlog)) if raised else (list(mlog) == rebuilt)
+        ms_ok = True if raised else (mms == ms)
+        if model != outs or not log_ok or not ms_ok:
+            sig = ("outputs-differ" if model != outs else
+                   "rebuild-times-differ" if not log_ok else "max-step-differs")
+            ctx.violation("corr:krylov.IntegratorKrylov", sig,
+                          "IntegratorKrylov history: %s from the model of set_state/integrate "
+                          "(_t_0, _max_step, re-basing loop)" % sig,
+                          {"kind": "krylov_corr", "tbl": case[0], "always_compute_step": case[1],
+                           "nsteps": case[2], "max_step_after_prepare": case[3], "ops": case[4],
+                           "impl": [outs, rebuilt, ms], "model": [model, list(mlog), mms]},
+                          found_input=True)
+    ctx.cov["input_distribution"]["krylov_trace"] = {"cases": len(cases), "ended_in_exception": nraise}
+
+
 # ---- histories on ONE solver object -------------------------------------
 def _herm(rng, N, den, sparse=False):
     A = np.zeros((N, N), dtype=complex)
@@ -1754,6 +2014,11 @@ def run(ctx):
         "conditions hold up to 2^-40, and local exactness for linear autonomous systems",
         "module laws / linearity of the right-hand side (hypotheses of the linear-step theorems) "
         "for complex matrices; 'doubles approximate them'",
+        "IntegratorDiag / IntegratorKrylov: the numerical kernels (eigen-decomposition, exp(diag*dt), "
+        "Lanczos, eigen-set of the tridiagonal matrix, _compute_psi, _compute_max_step) are oracles of "
+        "Model/C10_diag.v and Model/C10_krylov.v with the stated exactness hypotheses; the bookkeeping "
+        "(cache keyed by dt; _t_0, _max_step, re-basing loop) is tied by exact trace correspondence with "
+        "scripted kernels; FloquetBasis enters Props/C10_floquet_mx.v as a unitary matrix W(t)",
         "scipy.linalg.expm and scipy.integrate.solve_ivp(DOP853, rtol 1e-12) as reference "
         "solutions of the exploration oracle; SciPy zvode/dop853/lsoda, Krylov, diag internals "
         "are explored only",
@@ -1778,8 +2043,10 @@ def run(ctx):
         run_oracle(ctx, r2, 1)
 
     # the kernel / packing / matrix theorems: coqc, and coqchk in the thorough tier
-    vlib.standard_proof_step(ctx, ["Props/C10.vo", "Props/C10_mx.vo", "Props/C10_floquet.vo"],
-                             ["Props/C10.v", "Props/C10_mx.v", "Props/C10_floquet.v"], search)
+    vlib.standard_proof_step(ctx, ["Props/C10.vo", "Props/C10_mx.vo", "Props/C10_floquet.vo",
+                                   "Props/C10_integrators.vo", "Props/C10_floquet_mx.vo"],
+                             ["Props/C10.v", "Props/C10_mx.v", "Props/C10_floquet.v",
+                              "Props/C10_integrators.v", "Props/C10_floquet_mx.v"], search)
     if tabs is not None:
         # the computed tableau facts are evaluated by the kernel's VM (about 6
         # minutes of vm_compute for the 2056 plane trees of order <= 9 on 26
@@ -1803,6 +2070,8 @@ def run(ctx):
     run_kernel_corr(ctx, rng, 160 if ctx.quick else 1500)
     run_init_coeff_corr(ctx, rng, 80 if ctx.quick else 400)
     run_fsesolve_corr(ctx, rng, 60 if ctx.quick else 300)
+    run_diag_corr(ctx, rng, 80 if ctx.quick else 500)
+    run_krylov_corr(ctx, rng, 80 if ctx.quick else 500)
     fsesolve_witness(ctx)
     run_packing_corr(ctx, rng, 60 if ctx.quick else 400)
     packing_roundtrip_oracle(ctx, rng, 60 if ctx.quick else 400)
@@ -1819,7 +2088,11 @@ def run(ctx):
         "(route agreement step by step), a step on y'=Ly is the kernel's own symbolic polynomial "
         "in L, that polynomial has the Taylor coefficients of exp through the advertised order for "
         "the tableaux in the source (re-read every run), all rooted-tree order conditions up to "
-        "order 1/4/7/9 (embedded 6/8, dense output 6/8), unstack.stack = id. Tied: exact "
+        "order 1/4/7/9 (embedded 6/8, dense output 6/8), unstack.stack = id; IntegratorDiag: every "
+        "history returns U exp(diag (t - t_set)) Uinv s_set, cache never stale; IntegratorKrylov: every "
+        "answer to non-decreasing queries is the exact flow given per-window exact oracles, infinite "
+        "window only for breakdown states, no exception when nsteps exceeds the distance; fsesolve = "
+        "W(t) W(t0)^+ psi0 with propagator laws. Tied: exact "
         "session-level correspondence of the real Cython kernel with the model. Explored, not "
         "proved: global accuracy of every registered method/format/state form/coefficient kind "
         "against expm and against each other (tolerance %g x (atol + rtol |y|))." % SAFETY)
@@ -1884,6 +2157,10 @@ def replay(ctx, payload):
         fsesolve_witness(ctx)
     elif kind == "fsesolve_corr":
         run_fsesolve_corr(ctx, random.Random(payload.get("seed", 0)), 60)
+    elif kind == "diag_corr":
+        run_diag_corr(ctx, random.Random(payload.get("seed", 0)), 200)
+    elif kind == "krylov_corr":
+        run_krylov_corr(ctx, random.Random(payload.get("seed", 0)), 200)
     elif kind == "init_coeff":
         run_init_coeff_corr(ctx, random.Random(payload.get("seed", 0)), 200)
     elif kind in ("packing", "packing_roundtrip"):
